@@ -210,3 +210,57 @@ func init() {
 		}
 	}
 }
+
+func init() {
+	// reduce a C02 static finding: `vcheck jsreduce-static <replay.json>`
+	Children["jsreduce-static"] = func(args []string) {
+		defer nodePool().Close()
+		for _, f := range args {
+			b, _ := os.ReadFile(f)
+			var rp struct {
+				Witness struct{ Config, Input string }
+			}
+			json.Unmarshal(b, &rp)
+			var c jsConfig
+			fmt.Sscanf(rp.Witness.Config, "js keepvarnames=%t version=%d precision=%d inline=%t", &c.KeepVarNames, &c.Version, &c.Precision, &c.Inline)
+			test := func(s string) bool {
+				a, err := jsAnalyze(s)
+				if err != nil {
+					return false
+				}
+				out, merr, pan := jsMinify(s, c)
+				if merr != nil || pan != "" {
+					return false
+				}
+				return c02Static(a, out, c) != ""
+			}
+			join := func(p []string) string { return strings.Join(p, "") }
+			split := func(s string, seps string) []string {
+				var parts []string
+				last := 0
+				for i := 0; i < len(s); i++ {
+					if strings.IndexByte(seps, s[i]) >= 0 {
+						parts = append(parts, s[last:i+1])
+						last = i + 1
+					}
+				}
+				if last < len(s) {
+					parts = append(parts, s[last:])
+				}
+				return parts
+			}
+			cur := rp.Witness.Input
+			for round := 0; round < 3; round++ {
+				cur = join(ddmin(split(cur, "\n"), join, test))
+				cur = join(ddmin(split(cur, ";}"), join, test))
+				cur = join(ddmin(split(cur, ";},)(]"), join, test))
+				if len(cur) < 300 {
+					cur = join(ddmin(strings.Split(cur, ""), join, test))
+				}
+			}
+			out, _, _ := jsMinify(cur, c)
+			a, _ := jsAnalyze(cur)
+			fmt.Printf("== %s\n   reduced: %s\n   output : %s\n   verdict: %s\n", f, cur, out, c02Static(a, out, c))
+		}
+	}
+}
